@@ -69,9 +69,11 @@ class LabQueue:
 
     def put(self, f):
         lab = self.lab
-        if lab.early == 2 and lab.running and lab.inflight and lab.pick(2, "completion_arrives_first") == 1:
-            # an executor thread reports a completion while the scheduler is still processing the current event:
-            # it is queued ahead of what the current event is about to queue
+        if lab.early == 2 and lab.running and lab.inflight and "._exec_job." in getattr(f, "__qualname__", "") \
+                and lab.pick(2, "completion_arrives_first") == 1:
+            # an executor thread reports a completion while the scheduler is still processing the current event: it is
+            # queued ahead of the job-start event the current event is about to queue (offered at job-start events only,
+            # to keep the schedule space small)
             self.q.append(lab.complete_one())
         self.q.append(f)
 
@@ -82,7 +84,7 @@ class LabQueue:
         lab = self.lab
         lab.check_held("event")
         if self.q:
-            if lab.early and lab.inflight and lab.pick(2, "early_completion") == 1:
+            if lab.early == 1 and lab.inflight and lab.pick(2, "early_completion") == 1:
                 # an executor reports a completion while other events are still queued: it lands behind them
                 self.q.append(lab.complete_one())
             return self.q.pop(0)
